@@ -171,6 +171,45 @@ def feasible(st, ctx, timeout_ms=3000):
     return r.status != "proved"
 
 
+class EffectFreeLoop:
+    """for-loop of a function whose contract lets it modify no modelled field (`modifies` names only fields outside the
+    schema, e.g. the bookkeeping dictionaries): the invariant is derived mechanically from that frame -- at the loop head
+    every modelled field and every heap attribute is what it was when the loop was entered -- and then proved like a
+    hand-written one (preserve obligation after an arbitrary iteration).  A body that writes a modelled field fails
+    `loopN.preserve.frame.*`: the same defect the function's own frame obligation states.  The iterable may lie outside
+    the model (an opaque dictionary view): then the number of iterations is arbitrary and the element is opaque."""
+    variant = None
+    props = ()
+
+    def __init__(self, props):
+        self.props = tuple(props)
+
+    @staticmethod
+    def applies(ex, st):
+        con = getattr(ex.ctx, "con", None)
+        if con is None:
+            return False
+        return not any(m in st.f and not isinstance(st.f[m], VOpaque) for m in con.modifies)
+
+    def havoc(self, ex, st, node, ordinal):
+        idxname = "__i%d" % ordinal
+        if idxname in st.loc:
+            nm = "efl%s.i" % logic.fresh("n").decl().name().split("!")[1]
+            st.loc[idxname] = Num(z3.Int(nm))
+            logic.REG.index_consts.add(nm)
+        for n in _stored_names(node):
+            st.loc[n] = None
+
+    def inv(self, ex, entry, st, mode):
+        from .contract import unchanged_clauses
+        out = [("frame." + nm, cl) for nm, cl in unchanged_clauses(ex.ctx.lib if hasattr(ex.ctx, "lib") else None,
+                                                                  ex.ctx.cls, entry, st)]
+        for k, v in st.loc.items():
+            if k.startswith("__i") and isinstance(v, Num):
+                out.append(("index-nonneg", v.t >= 0))
+        return out
+
+
 class AutoScanLoop:
     """`while i < len(L) and <test on L[i]>: i += 1` with nothing else in the body: the invariant is derived
     mechanically -- 0 <= i <= len(L), and the test held at every position before i -- and then proved like a
@@ -1117,7 +1156,7 @@ class Exec:
     def builtin(self, name, args, kw, st, node):
         lineno = node.lineno
         if name in ("list", "enumerate") and len(args) == 1 and isinstance(self.deref(args[0], st), VOpaque):
-            return [(VOpaque(name + "(opaque)"), st)]       # a value outside the model stays outside the model
+            return [(VOpaque("%s(%s)" % (name, self.deref(args[0], st).tag)), st)]       # a value outside the model stays outside the model
         if name == "len":
             v = self.deref(args[0], st)
             if isinstance(v, VOpt) and isinstance(v.val, SList):
@@ -1545,6 +1584,13 @@ class Exec:
             return [Outcome("next", s)]
         if isinstance(tgt, ast.Tuple):
             v = self.deref(v, st)
+            if isinstance(v, VOpaque) and ".items()" in v.tag and v.tag.endswith(".elem") and len(tgt.elts) == 2 \
+                    and all(isinstance(e, ast.Name) for e in tgt.elts):
+                # an element of a dict.items() view outside the model: a (key, value) pair of opaque values
+                s = st.fork()
+                s.loc[tgt.elts[0].id] = VOpaque(v.tag + ".key")
+                s.loc[tgt.elts[1].id] = VOpaque(v.tag + ".value")
+                return [Outcome("next", s)]
             if not isinstance(v, VTuple) or len(v.items) != len(tgt.elts):
                 raise Unsupported("tuple unpacking of %r (line %d)" % (v, lineno))
             states = [st]
@@ -1739,6 +1785,8 @@ class Exec:
         spec = ctx.loop_invs.get(ordinal)
         if spec is None and kind == "while":
             spec = AutoScanLoop.match(node)          # derived invariant for a plain linear scan (checked like any other)
+        if spec is None and kind == "for" and EffectFreeLoop.applies(self, st):
+            spec = EffectFreeLoop(getattr(ctx.con, "props", ()))      # derived from the function's frame, checked
         if spec is None:
             raise Unsupported("loop #%d at line %d of %s.%s has no invariant" % (ordinal, node.lineno, ctx.cls, ctx.fname))
         if node.orelse:
@@ -1806,11 +1854,25 @@ class Exec:
                     sh.assume(z3.Not(lst.isnone))
                     lst = lst.val
                     sh.loc["__it%d" % ordinal] = lst
-                if not isinstance(lst, SList):
+                if isinstance(lst, VOpaque) and isinstance(spec, EffectFreeLoop):
+                    # iterable outside the model: any number of iterations, each with an opaque element
+                    tests = []
+                    s_more = sh.fork()
+                    s_more.trace.append("L%d:iter" % node.lineno)
+                    for o in self.assign(node.target, VOpaque(lst.tag + ".elem"), s_more, node.lineno):
+                        if o.kind == "next":
+                            tests.append((True, o.state))
+                        else:
+                            outs.append(o)
+                    s_done = sh.fork()
+                    s_done.trace.append("L%d:done" % node.lineno)
+                    tests.append((False, s_done))
+                    lst = None
+                elif not isinstance(lst, SList):
                     raise Unsupported("for over %r (line %d)" % (lst, node.lineno))
                 i = sh.loc[idxname].t
-                tests = []
-                for b, s in self.branch(sh, i < lst.len, node.lineno):
+                tests = [] if lst is not None else tests
+                for b, s in (self.branch(sh, i < lst.len, node.lineno) if lst is not None else []):
                     if b:
                         s2 = s
                         lst2 = self.deref(s2.loc["__it%d" % ordinal], s2)
